@@ -1462,16 +1462,10 @@ func c02Prop(rt *rapid.T, c *vlib.Case, open map[string]bool) {
 			c.Label("steered:" + fC02CleanConv)
 			continue
 		}
-		if sp.conv == "c1" && c02InvertedSequence(q.Conditions) && len(pop.conv.out) < len(pop.visible) {
-			// "a then not b" searched in the output of a named converter, for a stream without cached
-			// output of it: the engine says it matches (no data, nothing contradicts) while the normaliser
-			// assumes it implies "a"; which of the two is meant is not documented, so it is not asserted
-			if open[fC02InvSeqNoOut] {
-				c.Count("excluded_known", 1)
-				c.Label("steered:" + fC02InvSeqNoOut)
-			} else {
-				c.Label("not-asserted:inverted-sequence-without-converter-output")
-			}
+		if open[fC02InvSeqNoOut] && sp.conv == "c1" && c02InvertedSequence(q.Conditions) && len(pop.conv.out) < len(pop.visible) {
+			// "a then not b" searched in the output of a named converter, for a stream without cached output of it
+			c.Count("excluded_known", 1)
+			c.Label("steered:" + fC02InvSeqNoOut)
 			continue
 		}
 		if open[fC02NegSeqMulti] && pop.conv != nil && c02UsesTagWithSequenceDefinition(q.Conditions, tags) {
@@ -1737,6 +1731,7 @@ func c02FixedCases(name string) []c02FixedCase {
 		conv := map[uint64][]vq.Run{3: {{Dir: 1, Data: []byte("zz")}}}
 		return []c02FixedCase{
 			{files: [][]*vidx.SRec{f}, conv: conv, unionOnly: true, search: &c02Search{raw: "sdata.c1:cc then (cport:1: or -cdata.c1:x or sport:0:)"}},
+			{files: [][]*vidx.SRec{f}, conv: conv, search: &c02Search{raw: "sdata.c1:zz then -cdata.c1:x", limit: 100}},
 		}
 	}
 	return nil
